@@ -90,6 +90,10 @@ def scene_L(A, B, lift):
     return max(1.0, s * A.size(), s * B.size(), s * float(np.linalg.norm(A.t - B.t)))
 
 
+class SupportBudget(Exception):
+    """raised by the counting proxy far beyond the bound of C19, so that a run-away loop ends"""
+
+
 class Proxy:
     """counts support evaluations; forwards everything else (defined lazily as a ConvexCollider subclass)"""
     _cls = None
@@ -112,6 +116,8 @@ class Proxy:
 
                 def support_function(self, d):
                     self.calls += 1
+                    if self.calls > 1500:
+                        raise SupportBudget()
                     return self.inner.support_function(d)
 
                 def center(self):
@@ -179,7 +185,29 @@ def true_distance(cert):
     return max(0.0, math.sqrt(sum(c * c for c in cert["xn"])) / cert["W"] - cert["rA"] - cert["rB"])
 
 
-def measure_distance(rid, A, B, lift, call, tol, clsA=None, clsB=None, extra=None):
+def jolt_reference(A, B, lift, clsA, clsB):
+    """(d, ok): the Jolt distance as a reference value for scalar-only algorithms on round shapes; ok only if its
+    witness points pass the separating-plane certificate at 1e-5*L (then d_true is within 2e-5*L of d)"""
+    try:
+        from distance3d import gjk
+        out = gjk.gjk_distance_jolt(A.build(lift, clsA), B.build(lift, clsB), max_distance_squared=float("inf"))
+        d, a, b = float(out[0]), np.asarray(out[1], dtype=float), np.asarray(out[2], dtype=float)
+    except Exception:
+        return 0.0, False
+    L = scene_L(A, B, lift)
+    s = lift[0]
+    al, bl = to_lattice(lift, a), to_lattice(lift, b)
+    if max(A.outside(al), B.outside(bl)) * s > 1e-5 * L:
+        return d, False
+    if d <= 1e-5 * L:
+        return d, True
+    n = (bl - al) / float(np.linalg.norm(bl - al))
+    c = max(0.0, A.support(n) - float(n @ al), B.support(-n) + float(n @ bl)) * s
+    return d, bool(c <= 1e-5 * L)
+
+
+def measure_distance(rid, A, B, lift, call, tol, clsA=None, clsB=None, extra=None, proxy=True, scalar_only=False,
+                     zero_exact=True):
     """Run one distance query `call(colliderA, colliderB) -> (d, a, b)` and measure every residual the judge needs."""
     s = lift[0]
     L = scene_L(A, B, lift)
@@ -193,18 +221,36 @@ def measure_distance(rid, A, B, lift, call, tol, clsA=None, clsB=None, extra=Non
         rec.update(cert)
     if extra:
         rec.update(extra)
-    ca = Proxy.wrap(A.build(lift, clsA))
-    cb = Proxy.wrap(B.build(lift, clsB))
+    ca, cb = A.build(lift, clsA), B.build(lift, clsB)
+    if proxy:
+        ca, cb = Proxy.wrap(ca), Proxy.wrap(cb)
     install_observers()
     _OBS["flat"] = 0
     try:
-        d, a, b = call(ca, cb)
+        with time_limit(20.0):
+            d, a, b = call(ca, cb)
         rec["flatDec"] = _OBS["flat"]
+    except Hang:
+        rec["exc"] = "Hang"
+        return rec, None
     except Exception as e:
         rec["exc"] = type(e).__name__
-        rec["supportCalls"] = max(ca.calls, cb.calls)
+        rec["supportCalls"] = max(ca.calls, cb.calls) if proxy else 0
         return rec, None
-    rec["supportCalls"] = max(ca.calls, cb.calls)
+    rec["supportCalls"] = max(ca.calls, cb.calls) if proxy else 0
+    if scalar_only:
+        d = float(d)
+        if not np.isfinite(d):
+            rec["finite"] = False
+            return rec, None
+        rec["dzero"], rec["dpos"], rec["aeqb"] = bool(d <= tol * L), bool(d > 0.0), bool(d <= tol * L)
+        if cert:
+            rec["dErr"] = ticks(abs(d - s * true_distance(cert)), tick)
+        else:
+            dref, ok = jolt_reference(A, B, lift, clsA, clsB)
+            rec["refOK"] = ok
+            rec["cert"] = ticks(abs(d - dref), tick) if ok else 0
+        return rec, (d, None, None)
     if a is None and b is None and d == np.finfo(float).max:
         # the documented clip: only legitimate if the pair really is farther apart than sqrt(max_distance_squared)
         rec["clipped"] = True
@@ -224,7 +270,7 @@ def measure_distance(rid, A, B, lift, call, tol, clsA=None, clsB=None, extra=Non
     rec["feasA"] = ticks(A.outside(al) * s, tick)
     rec["feasB"] = ticks(B.outside(bl) * s, tick)
     rec["consist"] = ticks(abs(float(np.linalg.norm(a - b)) - d), tick)
-    rec["dzero"] = bool(d == 0.0)
+    rec["dzero"] = bool(d == 0.0) if zero_exact else bool(d <= tol * L)
     rec["dpos"] = bool(d > 0.0)
     rec["aeqb"] = bool(float(np.linalg.norm(a - b)) <= tol * L)
     if cert:
@@ -337,6 +383,8 @@ def _minfeat(body):
     s = body.spec
     if s["kind"] == "hull":
         V = np.array(s["V"], dtype=float)
+        if len(V) < 2:
+            return 1.0
         return max(1.0, float(np.min([np.linalg.norm(V[i] - V[j]) for i in range(len(V)) for j in range(i)])))
     return float(min(v for k, v in s.items() if k not in ("kind", "name")))
 
